@@ -789,7 +789,7 @@ func (fx *fnExec) evalCall(x ECall, env *SpecEnv) SV {
 		ne := env.clone()
 		ne.cur = env.loopPre
 		return fx.evalSpec(x.Args[0], ne)
-	case "heap_unchanged_except", "only_fresh_modified":
+	case "heap_unchanged_except", "only_fresh_modified", "entry_unchanged_except":
 		// frame over all heaps whose name starts with the given prefix
 		pre, ok := x.Args[0].(EStr)
 		if !ok {
@@ -804,11 +804,18 @@ func (fx *fnExec) evalCall(x ECall, env *SpecEnv) SV {
 				except = append(except, fx.sc(v, SInt))
 			}
 		}
+		oldSt := env.old
+		if x.Fun == "entry_unchanged_except" {
+			if env.loopPre == nil {
+				panic(vcErr("entry_unchanged_except is only meaningful in a loop invariant"))
+			}
+			oldSt = env.loopPre
+		}
 		names := map[string]bool{}
 		for k := range env.cur.heaps {
 			names[k] = true
 		}
-		for k := range env.old.heaps {
+		for k := range oldSt.heaps {
 			names[k] = true
 		}
 		var cs []Term
@@ -818,14 +825,14 @@ func (fx *fnExec) evalCall(x ECall, env *SpecEnv) SV {
 			}
 			so := fx.heapSorts[k]
 			hc := fx.heap(env.cur, k, so)
-			ho := fx.heap(env.old, k, so)
+			ho := fx.heap(oldSt, k, so)
 			if hc.S == ho.S {
 				continue
 			}
 			r := Term{"r$q", SInt}
 			var guard Term
 			if x.Fun == "only_fresh_modified" {
-				guard = tSel(fx.heap(env.old, "$alive", arrSort(SInt, SBool)), r)
+				guard = tSel(fx.heap(oldSt, "$alive", arrSort(SInt, SBool)), r)
 			} else {
 				var ne []Term
 				for _, e := range except {
